@@ -222,7 +222,7 @@ func runSession(s *Session, o *kids.Case, dm *dumper) {
 
 	st := sent{started: map[string]int{}, stopped: map[string]bool{}, badStart: map[string]bool{}}
 	query := func(id string) string {
-		return fmt.Sprintf(`{"query":"subscription { ctl(id:\"%s\") { seq payload } }"}`, id)
+		return fmt.Sprintf(`{"query":"subscription { ctl(id:\"%s\") { seq payload ratio } }"}`, id)
 	}
 	clientOpen := true
 	for _, step := range s.Steps {
@@ -314,7 +314,7 @@ func runSession(s *Session, o *kids.Case, dm *dumper) {
 		case "s":
 			cs.ev("cmd:"+step.Op, id)
 			switch step.Op {
-			case "emit", "end", "adderr":
+			case "emit", "emitbad", "end", "adderr":
 				if op := cs.ops[id]; op != nil {
 					select {
 					case op.cmd <- step.Op:
@@ -875,7 +875,11 @@ func automaton(s *Session, o *kids.Case, cs *connState, cl *client, st *sent, fa
 		if op == nil {
 			continue
 		}
-		c := op.consumed.Load()
+		// an event that cannot be encoded is taken from the channel but never becomes a result frame
+		c := op.consumed.Load() - op.bad.Load()
+		if op.bad.Load() > 0 {
+			o.Count("operations_with_unencodable_event", 1)
+		}
 		if x.next > c {
 			fail("ws-payload-invented", fmt.Sprintf("operation %q: %d payload frames but the resolver's channel delivered %d values", id, x.next, c), nil)
 		}
